@@ -423,7 +423,7 @@ func genHeightWord() *rapid.Generator[uint64] {
 // genHeight draws (revision number, revision height) over the full uint64 range.
 func genHeight() *rapid.Generator[clienttypes.Height] {
 	return rapid.Custom(func(t *rapid.T) clienttypes.Height {
-		if rapid.IntRange(0, 9).Draw(t, "kw") == 0 {
+		if rapid.IntRange(0, 9).Draw(t, "kw") == 9 {
 			// the 16 key bytes spell a path keyword (right-aligned, random fill on the left)
 			kw := rapid.SampledFrom(keywordHeightBytes).Draw(t, "keyword")
 			var b [16]byte
@@ -437,7 +437,7 @@ func genHeight() *rapid.Generator[clienttypes.Height] {
 			return clienttypes.NewHeight(binary.BigEndian.Uint64(b[:8]), binary.BigEndian.Uint64(b[8:]))
 		}
 		var rev uint64
-		if rapid.IntRange(0, 2).Draw(t, "revKind") == 0 {
+		if rapid.IntRange(0, 2).Draw(t, "revKind") == 2 {
 			rev = genHeightWord().Draw(t, "rev")
 		} else {
 			rev = rapid.SampledFrom([]uint64{0, 0, 1, 2, 47, 9000}).Draw(t, "revSmall")
